@@ -594,6 +594,12 @@ class SArray:
     def __ge__(self, o):
         return _cmp_arr("ge", self, o)
 
+    def __eq__(self, o):
+        return _cmp_arr("eq", self, o)
+
+    def __ne__(self, o):
+        return _cmp_arr("ne", self, o)
+
     def __bool__(self):
         if self.ndim == 0:
             t = self.elem(())
@@ -651,9 +657,14 @@ def t_abs(t):
 
 
 def _cmp_arr(op, a, b):
+    if isinstance(b, SArray) and b.ndim == 0:
+        b = scalar_of(b.elem(()))
     if isinstance(a, SArray) and a.ndim == 0 and not isinstance(b, SArray):
         x = scalar_of(a.elem(()))
-        return {"lt": x < b, "gt": x > b, "le": x <= b, "ge": x >= b}[op]
+        if isinstance(x, (int, float, Fraction)) and not isinstance(b, (int, float, Fraction, SInt, SReal)):
+            raise OutOfReach("comparison of a 0-d array with a non-scalar")
+        return {"lt": lambda: x < b, "gt": lambda: x > b, "le": lambda: x <= b, "ge": lambda: x >= b,
+                "eq": lambda: x == b, "ne": lambda: x != b}[op]()
     raise OutOfReach("elementwise array comparison")
 
 
